@@ -13,7 +13,7 @@ CUT_FMT = "cut: core::fmt::write / alloc::fmt::format -> no-op (subject is not f
 
 class H:
     def __init__(self, name, crate, props, funcs, bound, tier="quick", timeout=900, mem_gb=12, stubs=(),
-                 args=(), expect="pass", finding=None, thorough_only=False, note="", qname=None, exp_gb=3, unwindset=None):
+                 args=(), expect="pass", finding=None, thorough_only=False, note="", qname=None, exp_gb=3, unwindset=None, native_replay=True):
         self.name = name
         self.crate = crate
         self.props = props
@@ -30,6 +30,7 @@ class H:
         self.qname = qname
         self.exp_gb = exp_gb
         self.unwindset = unwindset
+        self.native_replay = native_replay
 
 
 HARNESSES = [
@@ -85,9 +86,12 @@ HARNESSES += [
       "all 32-byte blocks (complete)", stubs=[MAXEPU8]),
     H("k_string_tables", "main", ["C05", "C09"], ["ESCAPED_TAB", "QUOTE_TAB", "NEED_ESCAPED"], "all 256 bytes (complete)"),
     H("k_check_cross_page", "main", ["C01", "C05"], ["check_cross_page"], "all pointers <= usize::MAX-64 (complete)"),
+    H("u_format_string_n4", "main", ["C05", "C01"], ["format_string", "escape_unchecked", "escaped_mask", "check_cross_page"],
+      "every byte string of length <= 4 (superset of valid UTF-8), with and without quotes; tail path (n < 32)",
+      stubs=[MAXEPU8, CUT_FMT], mem_gb=20, exp_gb=8, timeout=1200),
     H("u_format_string_n6", "main", ["C05", "C01"], ["format_string", "escape_unchecked", "escaped_mask", "check_cross_page"],
       "every byte string of length <= 6 (superset of valid UTF-8), with and without quotes; tail path (n < 32)",
-      stubs=[MAXEPU8, CUT_FMT], mem_gb=28, exp_gb=14, timeout=1500),
+      stubs=[MAXEPU8, CUT_FMT], mem_gb=32, exp_gb=16, timeout=2400, tier="thorough"),
     H("u_format_string_n8", "main", ["C05"], ["format_string", "escape_unchecked", "escaped_mask", "check_cross_page"],
       "every byte string of length <= 8 (superset of valid UTF-8), with and without quotes; tail path (n < 32)",
       stubs=[MAXEPU8, CUT_FMT], tier="thorough", timeout=3000, mem_gb=40, exp_gb=30),
@@ -155,21 +159,21 @@ HARNESSES += [
 ATOMIC = ("env model: AtomicPtr of lazyvalue/value.rs and owned.rs -> harness/common/atomic_shim.rs (other reader may publish at every atomic step; "
           "compare_exchange_weak may fail spuriously; sequentially consistent)")
 HARNESSES += [
-    H("e_lazy_parse_from", "main", ["C18", "C01"], ["lazyvalue::value::Inner::parse_from", "impl Clone for Inner", "impl Drop for Inner"],
-      "one shared Inner: 2 reads + 1 read through a clone by the reader under test, clone before/after the first read, both drop orders, "
+    H("e_lazy_parse_from", "main", ["C18", "C01"], native_replay=False, funcs= ["lazyvalue::value::Inner::parse_from", "impl Clone for Inner", "impl Drop for Inner"],
+      bound="one shared Inner: 2 reads + 1 read through a clone by the reader under test, clone before/after the first read, both drop orders, "
       "the other reader's publish at any of the atomic steps (all two-reader interleavings at atomic-step granularity)",
       stubs=[ATOMIC, "cut: from_slice_unchecked::<String> -> fixed decoding \"x\"", "instrumented: Arc::new -> same allocation + reference ledger"]),
-    H("e_lazy_parse_from_frees", "main", ["C18", "C01"], ["lazyvalue::value::Inner::parse_from", "impl Clone for Inner", "impl Drop for Inner"],
-      "same histories without the ledger's extra handles: every release really frees (CBMC dealloc-layout / double-free / use-after-free checks)",
+    H("e_lazy_parse_from_frees", "main", ["C18", "C01"], native_replay=False, funcs= ["lazyvalue::value::Inner::parse_from", "impl Clone for Inner", "impl Drop for Inner"],
+      bound="same histories without the ledger's extra handles: every release really frees (CBMC dealloc-layout / double-free / use-after-free checks)",
       stubs=[ATOMIC, "cut: from_slice_unchecked::<String> -> fixed decoding \"x\""]),
 ]
 
 HARNESSES += [
     H("m_array_iter_latch", "main", ["C12", "C20"], ["ArrayJsonIter::next_elem_impl"],
-      "arbitrary (first, ending, skip_strict) state x every outcome of the element driver; two consecutive calls",
+      "arbitrary (first, ending, skip_strict) state x valid/invalid deferred UTF-8 verdict x every outcome of the element driver; two consecutive calls",
       stubs=["contract model: Parser::parse_array_elem_lazy -> nondeterministic {element, end, error} (its grammar is decided by m_array_elem_lazy_n7)"]),
     H("m_object_iter_latch", "main", ["C12", "C20"], ["ObjectJsonIter::next_entry_impl"],
-      "arbitrary (first, ending, skip_strict) state x every outcome of the entry driver; two consecutive calls",
+      "arbitrary (first, ending, skip_strict) state x valid/invalid deferred UTF-8 verdict x every outcome of the entry driver; two consecutive calls",
       stubs=["contract model: Parser::parse_entry_lazy -> nondeterministic {entry, end, error}"]),
     H("u_owned_from_lazy_types", "main", ["C13", "C01"], ["impl From<LazyValue> for OwnedLazyValue", "OwnedLazyValue::new", "OwnedLazyValue::get_type/as_bool", "LazyRaw::get_type"],
       "raw text of each JSON value class (true,false,null,number,negative number,string,[],{}), conversion From<LazyValue>; string escape status symbolic", exp_gb=8),
@@ -178,9 +182,9 @@ HARNESSES += [
 ]
 
 for _n, _w in (("k_block_step_obj_w0", 0), ("k_block_step_arr_w16", 16), ("k_block_step_obj_w32", 32), ("k_block_step_arr_w48", 48)):
-    HARNESSES.append(H(_n, "main", ["C10", "C01"] if _w == 0 else ["C10"], ["parser::skip_container_loop", "parser::get_string_bits", "get_escaped_branchless_u64", "prefix_xor (fallback)", "u8x64::eq/bitmask"],
+    HARNESSES.append(H(_n, "main", ["C10"], ["parser::skip_container_loop", "parser::get_string_bits", "get_escaped_branchless_u64", "prefix_xor (fallback)", "u8x64::eq/bitmask"],
                        "every carry state (in-string, pending escape, counters < 2^20) x every 64-byte block that is symbolic in the 16-byte window at offset %d and neutral ('x') elsewhere" % _w,
-                       timeout=1500, exp_gb=6, tier="quick" if _w in (0, 48) else "thorough",
+                       timeout=3600, exp_gb=6, tier="thorough",
                        unwindset=[("ref_block_step", None, 66), ("windowed", None, 18), ("block_step_body", None, 18)]))
 HARNESSES += [
     H("u_skip_container_tail_n8", "main", ["C10", "C01"], ["Parser::skip_container (zero-padded tail block)", "parser::skip_container_loop"],
@@ -190,41 +194,40 @@ HARNESSES += [
 HARNESSES += [
     H("k_float_nonfinite_null", "main", ["C05", "C08"], ["Serializer::serialize_f64", "Serializer::serialize_f32", "Formatter::write_null/write_f64/write_f32"],
       "all 2^64 f64 and all 2^32 f32 bit patterns (complete for the finite/non-finite branch)", stubs=["cut: ryu::Buffer::format_finite -> \"1.5\" (digit generation is outside the claim)"]),
-    H("w_compound_shape", "main", ["C05"], ["Compound (SerializeSeq/SerializeMap)", "CompactFormatter", "PrettyFormatter", "to_vec", "to_vec_pretty", "Formatter::write_string_fast", "format_string"],
-      "fixed shape [b,[b],[],{\"k\":b,\"\":null},{}] with symbolic boolean leaves x {compact, pretty}", stubs=[MAXEPU8], timeout=1500, exp_gb=6, unwindset=[("serde_ser::push", None, 40), ("expect_", None, 40)]),
-    H("w_failing_writer", "main", ["C05"], ["to_writer", "Compound", "WriteExt::reserve_with/flush_len protocol", "Error::io"],
-      "writer failing after k <= 16 bytes x object with one symbolic ASCII key byte and a symbolic bool", stubs=[MAXEPU8, CUT_FMT], timeout=1500, exp_gb=6, unwindset=[("Failing", None, 20)]),
 ]
 
-HARNESSES += [
-    H("e_owned_load", "main", ["C18", "C01"], ["lazyvalue::owned::LazyRaw::load", "LazyRaw::clone_lazyraw", "impl Drop for LazyRaw"],
-      "one shared LazyRaw: 2 loads by the reader under test + clone + drop, the other reader's publish at any atomic step",
-      stubs=[ATOMIC, "cut: Parser::load_owned_lazyvalue -> fixed decoding Bool(true)", "cut: Read::from -> empty reader (unused by the cut parser)"]),
-]
 
 HARNESSES += [
-    H("b_skip_string_w24", "main", ["C02", "C14", "C09", "C01"], ["Parser::skip_string (32-byte block path + tail)", "Parser::skip_escaped_chars", "u8x32::{eq,le,bitmask}"],
-      "40-byte buffer: neutral 'x' except a 10-byte symbolic window at 24..34 (across the block edge) and a closing quote at 38",
-      stubs=[CUT_SYNTAX, MAXEPU8], timeout=1500, exp_gb=6,
-      unwindset=[("::skip_string", 1, 18), ("ref_string_end", None, 42), ("ref_has_backslash", None, 42), ("windowed", None, 12), ("any_array", None, 12), ("skip_escaped_chars", None, 6), ("try_from_fn", None, 12)]),
+    H("b_skip_string_w29", "main", ["C02", "C14", "C09", "C01"], ["Parser::skip_string (32-byte block path + tail)", "Parser::skip_escaped_chars", "u8x32::{eq,le,bitmask}"],
+      "38-byte buffer: neutral 'x' except a 6-byte symbolic window at 29..35 (across the block edge) and a closing quote at 36",
+      stubs=[CUT_SYNTAX, MAXEPU8], timeout=1500, exp_gb=8, mem_gb=20,
+      unwindset=[("::skip_string", None, 10), ("ref_string_end", None, 40), ("ref_has_backslash", None, 40), ("windowed", None, 8), ("skip_escaped_chars", None, 6)]),
 ]
 
 HARNESSES += [
     H("b_skip_string_unchecked_w27", "main", ["C10", "C12", "C01"], ["Parser::skip_string_unchecked (32-byte block path, escape carry between blocks)", "get_escaped_branchless_u32"],
       "64-byte buffer: neutral 'x' except a 10-byte symbolic window at 27..37 (across the block edge) and a closing quote at 40; well-formed literals only",
       stubs=[CUT_SYNTAX], timeout=1500, exp_gb=6,
-      unwindset=[("ref_string_end", None, 66), ("ref_has_backslash", None, 66), ("windowed", None, 12), ("::skip_string_unchecked", 1, 34)]),
-    H("b_skip_number_w29", "main", ["C02", "C14", "C08", "C01"], ["Parser::do_skip_number (32-byte block path, is_float carry, exponent inside a block)", "i8x32::{gt,bitmask}"],
-      "72-byte buffer of digits with a 10-byte symbolic window at 29..39 (lanes 27..31 of the first chunk and 0..4 of the next) and a comma at 70",
-      stubs=[CUT_SYNTAX], timeout=1800, exp_gb=6,
-      unwindset=[("ref_number_end", None, 74), ("windowed", None, 12), ("::do_skip_number", 1, 40), ("::do_skip_number", 2, 40), ("::skip_exponent", None, 40)]),
+      unwindset=[("ref_string_end", None, 66), ("ref_has_backslash", None, 66), ("windowed", None, 12), ("::skip_string_unchecked", None, 6)]),
+    H("b_skip_string_unchecked_tail_w27", "main", ["C10", "C12", "C13", "C01"], ["Parser::skip_string_unchecked (block loop, then the scalar tail with the escape carry)"],
+      "40-byte buffer: neutral 'x' except a 10-byte symbolic window at 27..37 and a closing quote at 38; well-formed literals only",
+      stubs=[CUT_SYNTAX], timeout=1500, exp_gb=6,
+      unwindset=[("ref_string_end", None, 50), ("ref_has_backslash", None, 50), ("windowed", None, 12), ("::skip_string_unchecked", None, 16)]),
+    H("b_skip_number_w30", "main", ["C02", "C14", "C08", "C01"], ["Parser::do_skip_number (32-byte block path, is_float carry, exponent inside a block)", "i8x32::{gt,bitmask}"],
+      "66-byte buffer of digits with a 6-byte symbolic window at 30..36 (lanes 28..31 of the first chunk and 0..1 of the next) and a comma at 44",
+      stubs=[CUT_SYNTAX], timeout=1800, exp_gb=8, mem_gb=20,
+      unwindset=[("ref_number_end", None, 48), ("windowed", None, 8), ("::do_skip_number", None, 14), ("::skip_exponent", None, 16)]),
 ]
 
 HARNESSES += [
     H("m_number_visit_raw_n7", "main", ["C03", "C08"], ["Parser::parse_number_visit (copying DOM driver, use_rawnumber)", "Parser::parse_number_inplace (in-place DOM driver, use_rawnumber)"],
       "every buffer of length <= 7 x every start index of a number x both drivers", stubs=[CUT_SYNTAX, M_NUM]),
-    H("e_owned_load_then_parse", "main", ["C01", "C13", "C18"], ["LazyRaw::load", "LazyRaw::parse", "impl Drop for LazyRaw"],
-      "sequence: optional shared read that fills the cache, then the mutable take-out, then drop of both", stubs=[ATOMIC, "cut: Parser::load_owned_lazyvalue -> fixed decoding Bool(true)", "cut: Read::from -> empty reader (unused by the cut parser)"]),
+]
+
+HARNESSES += [
+    H("k_position_from_index_n8", "main", ["C20"], ["reader::Position::from_index"], "every buffer of length <= 8 x every index (usize)"),
+    H("u_utf8_deferred_verdict_n6", "main", ["C02", "C20"], ["Read::check_utf8_final", "Read::next_invalid_utf8", "error::invalid_utf8"],
+      "every buffer of length <= 6 x every position of the first invalid byte (the verdict itself comes from simdutf8, trusted)", stubs=[CUT_SYNTAX]),
 ]
 
 CUT_PF = "cut: sonic_number::parse_float -> nondeterministic Ok(Float)/Err(FloatMustBeFinite) (classification and index only)"
@@ -278,10 +281,12 @@ HARNESSES += [
       "all 64-byte blocks, every lane (complete)", stubs=[INTR + "_mm256_shuffle_epi8"], qname="harness::k_arch_nonspace_native"),
     H("x_arch_nonspace_fallback", "ext", ["C17", "C10", "C02"], ["util::arch::fallback::get_nonspace_bits"],
       "all 64-byte blocks, every lane (complete)", qname="harness::k_arch_nonspace_fallback"),
-    H("x_num_str2int", "ext", ["C17", "C07"], ["sonic_number::arch::x86_64::simd_str2int", "sonic_number::arch::fallback::simd_str2int"],
-      "all 16-byte inputs whose first byte is a digit x need in 1..=16 (complete under the callers' precondition)",
-      stubs=[INTR + "_mm_maddubs_epi16, _mm_madd_epi16, _mm_packus_epi32"], qname="harness::k_num_str2int", timeout=1200),
-]
+] + [
+    H("x_num_str2int_%d" % _k, "ext", ["C17", "C07"] if _k in (1, 8, 16) else ["C17"], ["sonic_number::arch::x86_64::simd_str2int", "sonic_number::arch::fallback::simd_str2int"],
+      "need = %d, all 16-byte inputs whose first byte is a digit (complete under the callers' precondition)" % _k,
+      stubs=[INTR + "_mm_maddubs_epi16, _mm_madd_epi16, _mm_packus_epi32, _mm_sub_epi8 (wrapping)"], qname="harness::k_num_str2int_%d" % _k, timeout=1200)
+    for _k in range(1, 17)
+] + []
 
 BY_NAME = {h.name: h for h in HARNESSES}
 
